@@ -203,6 +203,7 @@ impl SchemaConverter {
                 emitter.write_alias_variant(s, None);
             }
         }
+        emitter.finish_alias();
     }
 
     /// Emit `---@alias Name` from `oneOf` with `const` values.
@@ -220,6 +221,7 @@ impl SchemaConverter {
                 emitter.write_alias_variant(val, desc);
             }
         }
+        emitter.finish_alias();
     }
 
     /// Emit `---@alias Name` from `oneOf` with mixed type variants (not all const).
@@ -236,6 +238,7 @@ impl SchemaConverter {
             let ty = self.resolve_type(walker, item);
             emitter.write_alias_type_variant(&ty, desc);
         }
+        emitter.finish_alias();
     }
 
     /// Emit `---@alias Name` from `anyOf`.
@@ -257,6 +260,7 @@ impl SchemaConverter {
                 let ty = self.resolve_type(walker, item);
                 emitter.write_alias_type_variant(&ty, desc);
             }
+            emitter.finish_alias();
         }
     }
 
@@ -362,11 +366,7 @@ impl SchemaConverter {
             let has_null = any_of
                 .iter()
                 .any(|item| item.get("type").and_then(|v| v.as_str()) == Some("null"));
-            let mut result = types.join(" | ");
-            if has_null {
-                result.push('?');
-            }
-            return result;
+            return Self::union_type(&types, has_null);
         }
 
         // oneOf → check if it's a string enum or union
@@ -382,7 +382,7 @@ impl SchemaConverter {
                     }
                 })
                 .collect();
-            return types.join(" | ");
+            return Self::union_type(&types, false);
         }
 
         // type field
@@ -396,11 +396,7 @@ impl SchemaConverter {
                     .map(|t| self.json_type_to_lua(t))
                     .collect();
                 let has_null = arr.iter().any(|t| t.as_str() == Some("null"));
-                let mut result = types.join(" | ");
-                if has_null {
-                    result.push('?');
-                }
-                return result;
+                return Self::union_type(&types, has_null);
             }
 
             // Simple type
@@ -439,7 +435,7 @@ impl SchemaConverter {
                 .filter_map(|v| v.as_str())
                 .map(string_literal_type)
                 .collect();
-            return variants.join(" | ");
+            return Self::union_type(&variants, false);
         }
 
         // const
@@ -448,6 +444,19 @@ impl SchemaConverter {
         }
 
         "any".to_string()
+    }
+
+    /// Join union members. A union must not be empty: without members it is
+    /// `nil` when only `null` was allowed and `any` otherwise.
+    fn union_type(types: &[String], nullable: bool) -> String {
+        if types.is_empty() {
+            return if nullable { "nil" } else { "any" }.to_string();
+        }
+        let mut result = types.join(" | ");
+        if nullable {
+            result.push('?');
+        }
+        result
     }
 
     /// Map JSON Schema primitive type names to Lua type names.
@@ -750,6 +759,33 @@ mod tests {
         assert!(output.contains("---| string\n"));
         assert!(!output.contains("both"));
         assert!(output.contains("---@field mode string?\n"));
+    }
+
+    #[test]
+    fn test_empty_unions_and_aliases_get_a_type() {
+        let schema = json!({
+            "title": "Root",
+            "type": "object",
+            "properties": {
+                "a": { "type": [] },
+                "b": { "type": ["null"] },
+                "c": { "anyOf": [] },
+                "d": { "enum": [1, 2] }
+            },
+            "required": ["a", "b", "c", "d"],
+            "$defs": {
+                "Numbers": { "enum": [1, 2] },
+                "Nothing": { "oneOf": [] }
+            }
+        });
+
+        let output = converter().convert(&schema).annotation_text;
+        assert!(output.contains("---@field a any\n"));
+        assert!(output.contains("---@field b nil?\n"));
+        assert!(output.contains("---@field c any\n"));
+        assert!(output.contains("---@field d any\n"));
+        assert!(output.contains("---@alias schema.Numbers\n---| any\n"));
+        assert!(output.contains("---@alias schema.Nothing\n---| any\n"));
     }
 
     #[test]
